@@ -53,7 +53,8 @@ class Atom:
             if isinstance(v, tuple) and v and v[0] == "c":
                 cv = str(v[1])
             elif isinstance(v, tuple) and v and v[0] == "namedc":
-                cv = v[1].split("::", 1)[-1]
+                # the names of the format constants are part of the description; any other constant is its value
+                cv = v[1].split("::", 1)[-1] if v[1].split("::")[-1].split(".")[0] in ("MAGIC", "MAGIC_REV", "VERSION") else str(v[2])
             return "F(%s%s)" % (ty_str(self.ty), ("=" + cv) if cv is not None else "")
         if self.k == "R":
             return "R(%s,[%s])" % (vs(self.n), " ".join(a.gshow() for a in self.body))
@@ -260,6 +261,34 @@ class Wire:
         self._unit_cache[t] = res
         return res
 
+    TWO_VARIANTS = {"core::option::Option": ("None", "Some"), "core::result::Result": ("Ok", "Err")}
+
+    def complement_variant(self, c):
+        """`else` over a value all of whose other variants were tested (`if let Some(x) = v {..} else {..}`): the
+        catch-all is the one remaining variant."""
+        v, negs = c[1], c[2]
+        if not negs or not all(isinstance(n, tuple) and n and n[0] == "variant" and n[1] == v for n in negs):
+            return None
+        adt = negs[0][2]
+        if any(n[2] != adt for n in negs):
+            return None
+        names = None
+        if adt in self.TWO_VARIANTS:
+            names = list(self.TWO_VARIANTS[adt])
+        else:
+            ent = self.u.adts.get(adt)
+            if ent is not None:
+                names = [None] * len(ent[1]["variants"])
+                for vj in ent[1]["variants"]:
+                    if vj["index"] < len(names):
+                        names[vj["index"]] = vj["name"]
+        if not names:
+            return None
+        left = [i for i in range(len(names)) if i not in set(n[3] for n in negs)]
+        if len(left) != 1 or names[left[0]] is None:
+            return None
+        return ("variant", v, adt, left[0], names[left[0]])
+
     # ------------------------------------------------------------------ normalisation
     def normalise(self, ip, path, side):
         wp = WPath()
@@ -292,7 +321,8 @@ class Wire:
                 else:
                     wp.dyn.append((v, pol, c[2] if len(c) > 2 else None))
             elif k in ("variant", "eq", "else"):
-                wp.selectors.append(c)
+                c2 = self.complement_variant(c) if k == "else" else None
+                wp.selectors.append(c2 or c)
             else:
                 wp.dyn.append((c, True, None))
         for a, negs in neg_eqs.items():
